@@ -141,6 +141,71 @@ def usize_target_cases(rng, tier):
     return cases
 
 
+def same_writer_cases(rng, tier):
+    """ONE BinArchiveWriter serves a whole run of consecutive writer operations (harness/src/k_ba.rs); `fresh` ends the run.  A writer
+    that remembers anything about the archive (its size, seeded change C03-8) goes wrong only when the SAME object appends and
+    then allocates again: at the old end (now an interior address with bytes and annotations behind it), at the real end (also of
+    unaligned size), repeatedly.  Every history is generated in both regimes (with and without `fresh` between the two steps)."""
+    cases = []
+    for e in "LB":
+        for size in (4, 8, 12, 10):
+            for n in (2, 4, 8):
+                for m in (4, 8):
+                    for ge in "01":
+                        pre = [("aae", [str(size)]), ("ws", ["0", "B4e414d45"]), ("wl", [str(size), "B45"])]
+                        if size >= 8:
+                            pre += [("wp", ["4", str(size)])]
+                        fill = [("Wseek", [str(size)]), ("Wwb", ["B" + "ab" * n]), ("Wwl", ["B46"])]     # bytes + a label in/behind the appended block
+                        if tier == "quick" and (n, m) in ((8, 8), (2, 8)):
+                            continue
+                        for sep in ([], [("fresh", [])]):
+                            w = [("Wseek", [str(size)]), ("Waae", [str(n)])]
+                            # insert at the OLD end with the same writer
+                            cases.append(Case(pyarchive.render_case(e, 2, pre + w + fill + sep + [("Wseek", [str(size)]), ("Wal", [str(m), ge]), ("Wwu8", ["7"]), ("Wws", ["B42"])]), "same-writer"))
+                            # append again at the REAL end (size + n may be unaligned: appending is always accepted)
+                            cases.append(Case(pyarchive.render_case(e, 2, pre + w + sep + [("Wseek", [str(size + n)]), ("Wal", [str(m), ge]), ("Wal", [str(m), ge])]), "same-writer"))
+                            # writer allocate at the end, then at the new end, then back at the first end
+                            cases.append(Case(pyarchive.render_case(e, 2, pre + [("Wseek", [str(size)]), ("Wal", [str(n), ge])] + sep +
+                                                                    [("Wseek", [str(size + n)]), ("Wal", [str(m), ge]), ("Wseek", [str(size)]), ("Wal", [str(m), ge])]), "same-writer"))
+                            # insert in the middle, then append at the new end / write into the moved tail
+                            if size >= 8:
+                                cases.append(Case(pyarchive.render_case(e, 2, pre + [("Wseek", ["4"]), ("Wal", [str(m), ge])] + sep +
+                                                                        [("Wseek", [str(size + m)]), ("Wal", [str(n), ge]), ("Wseek", [str(size)]), ("Wwu32", ["305419896"])]), "same-writer"))
+    # random writer-heavy histories: long runs on one object, now and then a positional call or `fresh`
+    nh, maxlen = (200, 14) if tier == "quick" else (2000, 50)
+    for _ in range(nh):
+        e = rng.choice("LB")
+        r = pyarchive.Ref(e)
+        size0 = rng.choice([0, 4, 8, 10, 12, 16])
+        ops = [("aae", [str(size0)])] if size0 else []
+        for op in ops:
+            r.apply(op[0], op[1])
+        for _ in range(rng.randint(3, maxlen)):
+            size = len(r.d)
+            x = rng.random()
+            pos = rng.choice([size, r.wpos, 4 * rng.randint(0, max(size // 4, 0)), rng.randint(0, size + 2)])
+            if x < 0.25:
+                op = ("Wseek", [str(pos)])
+            elif x < 0.4:
+                op = ("Waae", [str(rng.choice([1, 2, 4, 4, 8]))])
+            elif x < 0.6:
+                op = ("Wal", [str(rng.choice([4, 4, 8, 2, 0])), str(rng.randint(0, 1))])
+            elif x < 0.7:
+                op = rng.choice([("Wwu8", ["9"]), ("Wwu32", ["16909060"]), ("Wwb", ["Ba1a2a3"]), ("Wwu16", ["513"])])
+            elif x < 0.8:
+                op = rng.choice([("Wws", ["B41"]), ("Wwl", ["B4c"]), ("Wwp", [str(rng.randint(0, size + 4))]), ("Wwc", ["B43"])])
+            elif x < 0.88:
+                op = ("fresh", [])
+            elif x < 0.94:
+                op = rng.choice([("aae", [str(rng.choice([2, 4]))]), ("tr", [str(4 * rng.randint(0, size // 4 + 1))]), ("al", [str(4 * rng.randint(0, size // 4)), "4", "1"])])
+            else:
+                op = ("de", [str(4 * rng.randint(0, max(size // 4, 0))), "4", str(rng.randint(0, 1))])
+            ops.append(op)
+            r.apply(op[0], op[1])
+        cases.append(Case(pyarchive.render_case(e, 2, ops), "same-writer"))
+    return cases
+
+
 class C03(PropertyCheck):
     pid = "C03"
     release_too = True
@@ -149,7 +214,9 @@ class C03(PropertyCheck):
             "random histories of the nine operations (<= 12 steps quick, <= 60 thorough) on randomly annotated archives; a stream with "
             "addresses/sizes near usize::MAX; a stream with pointer targets in {2^64-1-k}, {2^63+d}, {2^32+d} x insertion points x amounts "
             "around the distance to 2^64 and allocate amounts up to usize::MAX-3 (all of which must be rejected with the archive "
-            "unchanged), single operations and random histories; the full observable state incl. the serialize image and the re-parsed c-strings is compared "
+            "unchanged), single operations and random histories; a stream of writer runs served by ONE BinArchiveWriter object (append then "
+            "allocate again at the old end / the real end / repeatedly, each also with a fresh writer in between) and writer-heavy random "
+            "histories; the full observable state incl. the serialize image and the re-parsed c-strings is compared "
             "after EVERY operation. Non-trivial = the case contains an accepted relocation of an archive that has at least one annotation; "
             "distinct = distinct case line.")
     assumptions = ["HashMap iteration order is unobservable in the compared state (everything printed sorted)",
@@ -191,6 +258,8 @@ class C03(PropertyCheck):
                         cases.append(Case(pyarchive.render_case(e, 2, pre + [("al", [str(a), "4", "1"]), ("tr", [str(a)])]), "usize-max"))
         # pointer targets that leave usize when relocated, new sizes that are not a vector length (finding F24)
         cases += usize_target_cases(rng, tier)
+        # long-lived writer objects (append, then allocate again with the SAME writer)
+        cases += same_writer_cases(rng, tier)
         # random histories
         nh, maxlen = (250, 12) if tier == "quick" else (2500, 60)
         for _ in range(nh):
@@ -207,7 +276,7 @@ class C03(PropertyCheck):
         steps = impl_out.split(" ; ")
         e, level, ops = pyarchive.parse_case(case.line)
         for (op, _), st in zip(ops, steps):
-            if op in ("al", "de", "tr", "Wal") and st.startswith("ok") and ("t=[]" not in st or "p=[]" not in st or "l=[]" not in st or "rc=[]" not in st):
+            if op in ("al", "de", "tr", "Wal", "Waae") and st.startswith("ok") and ("t=[]" not in st or "p=[]" not in st or "l=[]" not in st or "rc=[]" not in st):
                 return True
         return False
 
@@ -244,7 +313,9 @@ MANIFEST = dict(
          "Model tied to /repo on every run: extracted model vs real library on exhaustive single operations over a layout family, random "
          "histories, usize::MAX arguments, and a stream of pointer targets around 2^31 / 2^32 / 2^63 / 2^64 with insert amounts up to "
          "usize::MAX - 3 (allocate and deallocate, both ge), full state incl. serialize image and re-parsed c-strings after every step "
-         "(also after every REJECTED step), debug and release; independent Python reference written from the property text as oracle.",
+         "(also after every REJECTED step), debug and release; runs of writer operations are served by ONE BinArchiveWriter object (stream "
+         "same-writer: append, then allocate again with the same writer), also with a fresh writer per operation; independent Python "
+         "reference written from the property text as oracle.",
     note=TB + "Modelled, not verified: HashMap (association lists, order unobservable), Vec::splice/drain (A-std). Insert/append amounts that are "
               "ACCEPTED (new size <= isize::MAX) but exceed available memory abort the process in the allocator: resource exhaustion, outside "
               "the property, not generated; above isize::MAX allocate rejects (proved, tested) while allocate_at_end never returns (hypothesis "
